@@ -675,10 +675,10 @@ func vC33Scenarios(r *vRand, v uint64) []*vC33Prog {
 	b := spec(bname)
 	// forward / backward distances around the 1/2/3-byte varint and the int16 limits
 	dists := []int{3, 60, 63, 64, 65, 128, 4000}
-	if vTier() != "quick" || v >= varintBranchVersion || v == 4 {
+	if vTier() != "quick" || v == LogicVersion || v == 4 {
 		dists = append(dists, 8190, 8191, 8192, 8193, 8194, 8195, 32764, 32765, 32766, 32767, 32768, 32769, 32770, 32771, 40000)
 	}
-	if vTier() == "thorough" {
+	if vTier() == "thorough" && (v == 4 || v == LogicVersion) {
 		dists = append(dists, 16382, 16383, 16384, 16385, 100000, 200000)
 	}
 	for _, d := range dists {
@@ -809,6 +809,9 @@ func vC33RunA(out *vOut, st map[string]int, r *vRand, p *vC33Prog) {
 		st["a_tracked"]++
 	}
 	st[fmt.Sprintf("a_v%02d", p.v)]++
+	if len(text) > 20000 {
+		text = "" // only kept for reading a replay
+	}
 	out.Case(vSym("a"), p.v, int(p.mode), p.salt, p.tt, labs, prog,
 		asm.term(), chk, dis.term(), re.term(), nt.term(), text)
 }
